@@ -244,6 +244,7 @@ type stopCause struct {
 	Kind       string // "stopped", "closed", "error"
 	Begin, End int
 	Optional   bool // an event that may, but need not, end the connection (a failed Send)
+	Consequence bool // client side: the peer hanging up because it saw the client's end closed
 }
 
 type srvCfg struct {
